@@ -137,13 +137,27 @@ theorem c04_progress_eintr (g : Cfg) (s : S) (k n0 : Nat) (ks : List KAns) (hr :
     is about — a dial that connected at once, registered read+write with no callback pending — is not produced by
     `registerDial`, which always has the connected callback pending; see the manifest note.) -/
 theorem c04_flush_empty_noop (g : Cfg) (s : S) (ks : List KAns) (hr : Reach g s) (hc : s.closed = false)
-    (hcn : s.connecting = false) (hw : s.wl = []) : flush g s ks = s := by
+    (hcn : s.connecting = false) (hid : s.idle = false) (hw : s.wl = []) : flush g s ks = s := by
   obtain ⟨hd, ha⟩ := reach_inv hr
   have hwf : s.isWAdded = false := by
     cases h : s.isWAdded
     · rfl
-    · have := (ha.wadd hc hd.nohang).mp h; simp [hw, hcn] at this
+    · have := (ha.wadd hc hd.nohang).mp h; simp [hw, hcn, hid] at this
   simp [flush, cResetRead, hc, hw, hwf]
+
+/-- **C04 (a dial that connected at once).** `registerDialNow` registers read+write with `isWAdded` set and no
+    backlog (`idle`). The first EPOLLOUT handled with an empty queue drops the writing event and the belief with
+    it: afterwards `isWAdded = false`, `idle = false` and the kernel's interest agrees (`kOut` only under ET) — the
+    next backlog arms EPOLLOUT again (`c04_armed`, which holds for every op sequence including this registration). -/
+theorem c04_flush_empty_drops_idle (g : Cfg) (s : S) (ks : List KAns) (hr : Reach g s) (hc : s.closed = false)
+    (hw : s.wl = []) (hreg : s.reg = true) (hcn : s.connecting = false) :
+    (flush g s ks).isWAdded = false ∧ (flush g s ks).idle = false ∧ (flush g s ks).kOut = (g.mode == .et) ∧
+    (flush g s ks).wl = [] := by
+  obtain ⟨hd, ha⟩ := reach_inv hr
+  have hko := ha.kout hc hreg
+  have hwa := ha.wadd hc hd.nohang
+  cases hm : g.mode <;> cases hwd : s.isWAdded <;> cases hidl : s.idle <;>
+    simp_all [flush, cResetRead, pResetRead, kctl]
 
 /-- the quiet states are what every sequential use leaves behind, e.g. after registration and any calls -/
 example :
@@ -160,12 +174,13 @@ example :
 theorem c04_tail_is_three_steps (g : Cfg) (s : S) :
     step g s .evEnd = run g s [.evConnEnd, .evRearm, .evErrClose] := evEnd_run g s
 
-/-- **C04 (the conn's belief is right).** `isWAdded` holds exactly when a backlog exists (or an async
-    connect is still in progress), and once registered the kernel's interest set agrees with it
+/-- **C04 (the conn's belief is right).** `isWAdded` holds exactly when a backlog exists, or an async connect is
+    still in progress, or a dial that connected at once has not yet had its write interest dropped (`idle`), and
+    once registered the kernel's interest set agrees with it
     (LT, ONESHOT; ET always asks for EPOLLOUT). -/
 theorem c04_belief (g : Cfg) (ops : List Op) :
     let s := run g init ops
-    s.closed = false → (s.isWAdded = true ↔ (s.wl ≠ [] ∨ s.connecting = true)) ∧
+    s.closed = false → (s.isWAdded = true ↔ (s.wl ≠ [] ∨ s.connecting = true ∨ s.idle = true)) ∧
       (s.reg = true → s.kOut = (s.isWAdded || g.mode == .et)) := by
   intro s hc
   obtain ⟨hd, ha⟩ := reach_inv (g := g) ⟨ops, rfl⟩
@@ -259,6 +274,29 @@ example :
 /-- ONESHOT: an EPOLLOUT-only event whose flush stops at EAGAIN: between `evTake` and `evEnd` the fd is
     disarmed with the re-arm pending, afterwards it is armed again -/
 def g1 : Cfg := ⟨.oneshot, 0, 10, fun i => UInt8.ofNat i⟩
+
+/-- a dial that connected at once (LT): registered read+write with `isWAdded`; a write leaving a backlog keeps
+    EPOLLOUT armed (no MOD needed); the first EPOLLOUT with nothing to flush drops the writing event, and the next
+    backlog arms it again -/
+example :
+    let s1 := run g0 init [.registerDialNow]
+    let s2 := run g0 init [.registerDialNow, .write [1, 2, 3] [.wrote 1]]
+    let s3 := run g0 init [.registerDialNow, .evTake true false false [], .evEnd]
+    let s4 := run g0 s3 [.write [1, 2, 3] [.wrote 1]]
+    s1.isWAdded = true ∧ s1.kOut = true ∧ s1.idle = true ∧ s1.ctl.length = 1 ∧
+    s2.wl.length = 1 ∧ s2.kOut = true ∧ s2.ctl.length = 1 ∧
+    s3.isWAdded = false ∧ s3.kOut = false ∧ s3.idle = false ∧ s3.ctl.length = 2 ∧
+    s4.wl.length = 1 ∧ s4.isWAdded = true ∧ s4.kOut = true ∧ s4.ctl.length = 3 := by
+  decide
+
+/-- … ONESHOT, and the first event has no EPOLLOUT part: `ResetPollerEvent` re-arms for reading only and clears
+    the belief with it (repo fix), so the write that later leaves a backlog does arm EPOLLOUT -/
+example :
+    let s1 := run g1 init [.registerDialNow, .evTake false true false [], .evEnd]
+    let s2 := run g1 s1 [.write [1, 2, 3] [.wrote 1]]
+    s1.isWAdded = false ∧ s1.idle = false ∧ s1.kOut = false ∧ s1.disarmed = false ∧
+    s2.wl.length = 1 ∧ s2.isWAdded = true ∧ s2.kOut = true ∧ s2.disarmed = false := by
+  decide
 
 /-- ONESHOT, DialAsync: a writer goroutine between the connected tail and ResetPollerEvent, another between
     ResetPollerEvent and the error close — EPOLLOUT stays armed for the backlog until the conn is closed -/
